@@ -4,7 +4,7 @@
 // Same reference model and region split as bitfield_contracts.rs.
 
 use super::__BindgenBitfieldUnit;
-use crate::bitfield_unit::contracts::{field, in_region, le, mask, pre_dbg, splice};
+use crate::bitfield_unit::contracts::{field, get_post, in_region, le, mask, pre_dbg, set_post, splice};
 
 impl<const N: usize> kani::Arbitrary for __BindgenBitfieldUnit<[u8; N]> {
     fn any() -> Self {
@@ -19,101 +19,16 @@ macro_rules! const_contracts {
             pub const N: usize = $n;
             pub type U = __BindgenBitfieldUnit<[u8; N]>;
 
-            #[kani::requires(pre_dbg(N, off, w) && in_region(off, w))]
-            #[kani::ensures(|r: &u64| *r == field(le(&u.storage), off, w))]
-            pub fn get_const_c(u: &U, off: usize, w: u8) -> u64 {
-                u.get_const(off, w)
-            }
-            #[kani::proof_for_contract(get_const_c)]
-            #[kani::unwind(18)]
-            pub fn get_const_in() {
-                let u = U::new(kani::any());
-                get_const_c(&u, kani::any(), kani::any());
-            }
-
-            #[kani::requires(pre_dbg(N, off, w) && in_region(off, w))]
-            #[kani::ensures(|r: &u64| *r == field(le(&u.storage), off, w))]
-            pub fn raw_get_const_c(u: &U, off: usize, w: u8) -> u64 {
-                unsafe { U::raw_get_const(u as *const U, off, w) }
-            }
-            #[kani::proof_for_contract(raw_get_const_c)]
-            #[kani::unwind(18)]
-            pub fn raw_get_const_in() {
-                let u = U::new(kani::any());
-                raw_get_const_c(&u, kani::any(), kani::any());
-            }
-
-            #[kani::requires(pre_dbg(N, off, w) && in_region(off, w))]
-            #[kani::modifies(u)]
-            #[kani::ensures(|_| le(&u.storage) == splice(old(le(&u.storage)), off, w, v))]
-            pub fn set_const_c(u: &mut U, off: usize, w: u8, v: u64) {
-                u.set_const(off, w, v)
-            }
-            #[kani::proof_for_contract(set_const_c)]
-            #[kani::unwind(18)]
-            pub fn set_const_in() {
-                let mut u = U::new(kani::any());
-                set_const_c(&mut u, kani::any(), kani::any(), kani::any());
-            }
-
-            #[kani::requires(pre_dbg(N, off, w) && in_region(off, w))]
-            #[kani::modifies(u)]
-            #[kani::ensures(|_| le(&u.storage) == splice(old(le(&u.storage)), off, w, v))]
-            pub fn raw_set_const_c(u: &mut U, off: usize, w: u8, v: u64) {
-                unsafe { U::raw_set_const(u as *mut U, off, w, v) }
-            }
-            #[kani::proof_for_contract(raw_set_const_c)]
-            #[kani::unwind(18)]
-            pub fn raw_set_const_in() {
-                let mut u = U::new(kani::any());
-                raw_set_const_c(&mut u, kani::any(), kani::any(), kani::any());
-            }
+            getter!(get_const_c, get_const_in, get_const_twin, |u, off, w| u.get_const(off, w));
+            getter!(raw_get_const_c, raw_get_const_in, raw_get_const_twin, |u, off, w| unsafe { U::raw_get_const(u as *const U, off, w) });
+            setter!(set_const_c, set_const_in, set_const_twin, |u, off, w, v| u.set_const(off, w, v));
+            setter!(raw_set_const_c, raw_set_const_in, raw_set_const_twin, |u, off, w, v| unsafe { U::raw_set_const(u as *mut U, off, w, v) });
 
             // F1 witness region (known finding): the u64 fallback path
-            #[kani::proof]
-            #[kani::unwind(18)]
-            pub fn get_const_region_gt64() {
-                let u = U::new(kani::any());
-                let off: usize = kani::any();
-                let w: u8 = kani::any();
-                kani::assume(pre_dbg(N, off, w) && !in_region(off, w));
-                let r = u.get_const(off, w);
-                assert!(r == field(le(&u.storage), off, w));
-            }
-            #[kani::proof]
-            #[kani::unwind(18)]
-            pub fn set_const_region_gt64() {
-                let mut u = U::new(kani::any());
-                let off: usize = kani::any();
-                let w: u8 = kani::any();
-                let v: u64 = kani::any();
-                kani::assume(pre_dbg(N, off, w) && !in_region(off, w));
-                let x0 = le(&u.storage);
-                u.set_const(off, w, v);
-                assert!(le(&u.storage) == splice(x0, off, w, v));
-            }
-            #[kani::proof]
-            #[kani::unwind(18)]
-            pub fn raw_get_const_region_gt64() {
-                let u = U::new(kani::any());
-                let off: usize = kani::any();
-                let w: u8 = kani::any();
-                kani::assume(pre_dbg(N, off, w) && !in_region(off, w));
-                let r = unsafe { U::raw_get_const(&u as *const U, off, w) };
-                assert!(r == field(le(&u.storage), off, w));
-            }
-            #[kani::proof]
-            #[kani::unwind(18)]
-            pub fn raw_set_const_region_gt64() {
-                let mut u = U::new(kani::any());
-                let off: usize = kani::any();
-                let w: u8 = kani::any();
-                let v: u64 = kani::any();
-                kani::assume(pre_dbg(N, off, w) && !in_region(off, w));
-                let x0 = le(&u.storage);
-                unsafe { U::raw_set_const(&mut u as *mut U, off, w, v) };
-                assert!(le(&u.storage) == splice(x0, off, w, v));
-            }
+            region_getter!(get_const_region_gt64, |u, off, w| u.get_const(off, w));
+            region_getter!(raw_get_const_region_gt64, |u, off, w| unsafe { U::raw_get_const(u as *const U, off, w) });
+            region_setter!(set_const_region_gt64, |u, off, w, v| u.set_const(off, w, v));
+            region_setter!(raw_set_const_region_gt64, |u, off, w, v| unsafe { U::raw_set_const(u as *mut U, off, w, v) });
 
             #[kani::proof]
             #[kani::unwind(18)]
